@@ -58,6 +58,29 @@ end
 def expPages (cs : List Entry) : List PathS :=
   if indexed cs then [specHtml indexName] :: expEntries [] cs else []
 
+/-! ### the same expectation, told from the side of the source files -/
+
+/-- "at the same relative path": the page of the Markdown file at `src` (relative to the page
+    directory) is `<stem>.html` in the same place -/
+def pageOf (src : PathS) : PathS := src.dropLast ++ (src.getLast?.map specHtml).toList
+
+mutual
+/-- the titled Markdown files below entry `e` of an indexed directory at `loc` that the statement
+    turns into pages (paths relative to the page directory) -/
+def srcEntry (loc : PathS) : Entry → List PathS
+  | .file n m => if isMd n && titled m then [loc ++ [n]] else []
+  | .dir n cs => if indexed cs then (loc ++ [n, indexName]) :: srcEntries (loc ++ [n]) cs else []
+def srcEntries (loc : PathS) : List Entry → List PathS
+  | [] => []
+  | e :: es => (if skipName e.name || e.name == indexName then [] else srcEntry loc e) ++ srcEntries loc es
+end
+
+/-- all titled Markdown files of the page directory `cs` that the statement turns into pages:
+    index.md of every directory reached through titled index.md files, and every visible titled
+    `*.md` in such a directory -/
+def titledFiles (cs : List Entry) : List PathS :=
+  if indexed cs then [indexName] :: srcEntries [] cs else []
+
 /-- paths of all pages of a result -/
 def resPaths : Res → List PathS
   | .page nd => (preorder nd).map Node.path
